@@ -94,9 +94,11 @@ class Path:
 
 
 class Interp:
-    def __init__(self, fn, inputs=None, call_model=None, on_unknown="both", loop_bound=2, max_paths=20000, prog=None):
+    def __init__(self, fn, inputs=None, call_model=None, on_unknown="both", loop_bound=2, max_paths=20000, prog=None,
+                 macro_models=None):
         self.fn = fn
         self.prog = prog
+        self.macro_models = macro_models or {}
         self.inputs = inputs or {}
         self.call_model = call_model
         self.on_unknown = on_unknown
@@ -183,6 +185,8 @@ class Interp:
         if not isinstance(e, dict):
             return TOP
         k = e.get("k")
+        if self.macro_models and e.get("mac") in self.macro_models and k != "ref":
+            return self.macro_models[e["mac"]](self, p, e)
         if k == "ref":
             key = (e["b"], e["i"])
             if key in p.vals:
@@ -207,6 +211,12 @@ class Interp:
                 # evaluate a variable index so that a[i] with known i reads a[<value>]
                 bkey = lvalue_key(e["b"], fn)
                 iv = self.ev(p, e["i"])
+                bv = strip(e["b"])
+                if self.prog is not None and isinstance(bv, dict) and bv.get("k") == "var" and bv.get("s") in ("global", "slocal") \
+                        and isinstance(iv, int):
+                    gv = global_element(self.prog, bv["n"], iv, fn.unit)
+                    if gv is not NOGLOBAL:
+                        return gv
                 if bkey is not None and isinstance(iv, int):
                     return self.read(p, "%s[%d]" % (bkey, iv))
                 return TOP
@@ -447,7 +457,14 @@ class Interp:
                     break
                 blk = fn.blocks[b]
                 for i in range(idx0, len(blk["elems"])):
-                    p.vals[(b, i)] = self.ev(p, blk["elems"][i]["e"])
+                    el = blk["elems"][i]
+                    mm = None
+                    if self.macro_models and el.get("mac") and isinstance(el["e"], dict) and el["e"].get("k") in ("bin", "un", "cond", "idx", "cast"):
+                        for m in el["mac"]:
+                            if m in self.macro_models:
+                                mm = self.macro_models[m]
+                                break
+                    p.vals[(b, i)] = mm(self, p, el["e"]) if mm is not None else self.ev(p, el["e"])
                 idx0 = 0
                 succ = fn.succ[b]
                 if b == fn.exit or not succ:
@@ -673,3 +690,41 @@ def list_overrides(lists, prefix_len="List_length", prefix_at="List_elementAt"):
         return TOP
 
     return length, element_at
+
+
+NOGLOBAL = object()
+
+
+def global_element(prog, name, idx, unit=None):
+    """Value of element idx of a constant global array as stored (wrapped to the element type)."""
+    lst = [g for g in prog.globals.get(name, []) if "init" in g and (unit is None or g["unit"] == unit or not g.get("static"))]
+    if len(lst) != 1:
+        return NOGLOBAL
+    g = lst[0]
+    if not g.get("const"):
+        return NOGLOBAL
+    init = g["init"]
+    size = g.get("array")
+    if init.get("k") == "str":
+        data = init.get("bytes") or [ord(c) for c in init.get("v", "")]
+        if size is None:
+            size = len(data) + 1
+        if 0 <= idx < len(data):
+            return wrap(data[idx], 8, g.get("esg", True))
+        if idx < size:
+            return 0
+        return TOP
+    if init.get("k") != "arr":
+        return NOGLOBAL
+    els = init["e"]
+    if 0 <= idx < len(els):
+        v = strip(els[idx])
+        if isinstance(v, dict) and v.get("k") == "int":
+            val = v["v"] if isinstance(v["v"], int) else int(v["v"])
+            if g.get("ew"):
+                return wrap(val, g["ew"], g.get("esg", False))
+            return val
+        return TOP
+    if size is not None and idx < size:
+        return 0
+    return TOP
